@@ -4,7 +4,7 @@
    run operations on a family of handles whose entries carry two ghost labels (coordinate group,
    topology group): a copy-like operation starts a new coordinate group, a deep copy also a new
    topology group, a view stays in the groups of its parent (copy_starts_new_group below).
-   Theorems 1-8 hold for every Scalar instance (reals and binary64 alike); 9-12 are at T := R. *)
+   Theorems 1-8 (and 3b) hold for every Scalar instance (reals and binary64 alike); 9-12 are at T := R. *)
 From Coq Require Import String.
 From GM Require Import Proofs.RTac Model.Objects Proofs.ObjectsFrame Proofs.ObjectsIso Proofs.ObjectsLive
   Proofs.ObjectsR Proofs.ObjectsDemo.
@@ -43,10 +43,35 @@ Theorem C18_copy_starts_new_group :
 Proof. exact (@copy_starts_new_group). Qed.
 Print Assumptions C18_copy_starts_new_group.
 
+(* 3b. Alignment objects (a cell holding what _start and _end refer to).  `ali.start = fam[j]` /
+      `ali.end = fam[j]` / `= None`, in every branch - first assignment, RE-assignment of an equal
+      molecule when both ends are set, ValueError for a non-matching one - writes no coordinate atom,
+      topology atom or name cell that existed: it only allocates and updates the Alignment's own cell. *)
+Theorem C18_alignment_footprint :
+  forall (T : Type) (S : Scalar T) (h : heap T) (fam : family T) k side oj h' fam' r,
+  step_ali (h, fam) k side oj = ((h', fam'), r) -> ext nonep nonep nonep h h'.
+Proof. exact (fun T _ => @step_ali_ext T). Qed.
+Print Assumptions C18_alignment_footprint.
+
+(*    ... and whenever such an assignment does not raise, what the Alignment stores (and hands back as
+      ali.start / ali.end) is a molecule on fam[j]'s topology whose coordinate atoms are freshly
+      allocated, appended to the family in a NEW coordinate group: by C18_isolation below, the stored
+      molecule and the molecule passed in are isolated from each other in both directions. *)
+Theorem C18_alignment_stores_a_copy :
+  forall (T : Type) (S : Scalar T) (h : heap T) (fam : family T) k side j h1 fam1,
+  wf h fam -> step (h, fam) (k, OAliSet side (Some j)) = ((h1, fam1), Ok tt) ->
+  exists gj tj mt ts rs rs',
+    nth_error fam j = Some (gj, tj, HM mt ts rs) /\
+    fam1 = fam ++ [(length fam, tj, HM mt ts rs')] /\ wf h1 fam1 /\ length fam <> gj /\
+    fresh_in (length (hgro h)) (length (hgro h1)) (concat rs').
+Proof. exact (@ali_assign_new_group). Qed.
+Print Assumptions C18_alignment_stores_a_copy.
+
 (* 4. ISOLATION.  For EVERY operation sequence (any length, exceptions included) none of whose
       operations is applied to a handle of X's coordinate group - i.e. all of them on copies of X,
       on copies of copies, on their views ... or, vice versa, on the original and its views when X
-      is the copy - X's coordinates, velocities, atom ids, residue numbers (resids getter: first
+      is the copy; assignments to Alignment ends are operations of the sequence like any other -
+      X's coordinates, velocities, atom ids, residue numbers (resids getter: first
       coordinate atom of every residue), and also the resnames getter and the coordinate-side
       names, read exactly what they read before. *)
 Theorem C18_isolation : forall (T : Type) (S : Scalar T) (h : heap T) (fam : family T) i g tg (X : handle T) ops,
@@ -149,6 +174,10 @@ Example C18_nonvacuous_deep : wf (@demo_deep_heap R _) demo_deep_fam /\
   avoids (fun e => fst (fst e) <> 0%nat /\ snd (fst e) <> 0%nat) (@demo_deep_heap R _, demo_deep_fam)
          [(1%nat, OSetResnamesAll "XX"%string); (1%nat, OSetMolName "NEW"%string); (1%nat, OMove vzero)].
 Proof. exact (conj demo_deep_wf demo_deep_avoids). Qed.
+(* an Alignment with both ends set: re-assignment of an equal molecule goes through and appends the stored copy *)
+Example C18_nonvacuous_alignment : wf (@demo_ali_heap R _) demo_ali_fam /\
+  snd (step (@demo_ali_heap R _, demo_ali_fam) (2%nat, OAliSet true (Some 0%nat))) = Ok tt.
+Proof. exact (conj demo_ali_wf (proj1 demo_ali_steps)). Qed.
 (* an orthogonal matrix that is not the identity (quarter turn about z), a non-empty body *)
 Example C18_nonvacuous_rotation :
   mmul (mtrans (mkM (mk3 0 (-1) 0) (mk3 1 0 0) (mk3 0 0 1))) (mkM (mk3 0 (-1) 0) (mk3 1 0 0) (mk3 0 0 1)) = (mid : M3 R).
